@@ -110,6 +110,8 @@ def split_lines(path, prefix, shards, scratch, rate, rng, group_walks=False):
         for line in f:
             if not line.startswith('"' + prefix):
                 continue
+            if not line.rstrip("\n").endswith('"'):
+                continue        # TLC was stopped by its time limit in the middle of a line
             n += 1
             if rate < 1.0 and rng.random() > rate:
                 continue
